@@ -374,6 +374,12 @@ def _safeFormat(fmtString: str, fmtDict: Dict[str, Any]) -> str:
     # entire event dict.
     try:
         text = fmtString % fmtDict
+        if not isinstance(text, str):
+            # A bytes (or otherwise exotic) format yields a non-text result;
+            # treat it like any other invalid format string.
+            raise TypeError(
+                "format produced {}, not str".format(type(text).__name__)
+            )
     except KeyboardInterrupt:
         raise
     except BaseException:
@@ -425,6 +431,12 @@ def textFromEventDict(eventDict: EventDict) -> Optional[str]:
                 why = "Unhandled Error"
             try:
                 traceback = cast(failure.Failure, eventDict["failure"]).getTraceback()
+                if not isinstance(traceback, str):
+                    raise TypeError(
+                        "getTraceback returned {}, not str".format(
+                            type(traceback).__name__
+                        )
+                    )
             except BaseException as e:
                 traceback = "(unable to obtain traceback): " + reflect.safe_str(e)
             text = why + "\n" + traceback
